@@ -88,10 +88,21 @@ func sameMultiset(a, b []string) bool {
 	return strings.Join(x, "\x00") == strings.Join(y, "\x00")
 }
 
+// partsExistWhenEmitted: the recorder behind the splitter stats every item at the moment it receives it.
+func partsExistWhenEmitted(ti *mon.TraceIndex, rec string) []mon.Problem {
+	var ps []mon.Problem
+	for _, e := range ti.Recs[rec] {
+		if !e.Exists {
+			ps = append(ps, mon.Problem{Sig: "splitter-part-emitted-before-it-exists", Msg: e.Path + " was handed downstream before a file existed at that path"})
+		}
+	}
+	return ps
+}
+
 func c19(args []string) {
 	c := chk.New("C19", "exploration", args)
 	c.Build(false)
-	c.Rule("every bundled component is placed between sources and recorders / consuming tasks and compared with a reference function: FileCombinator and ParamCombinator with 1-4 ports and stream lengths 0..B+1 from independent upstreams (B in {1,3}) and 0..B from a shared upstream - the multiset of aligned tuples (i-th item of every out-port) must equal the Cartesian product, each once; IPSelectorSync with every predicate outcome pattern over up to 6 aligned tuples; FileSplitter over files of 0..12 lines (with and without trailing newline) x 1..5 lines per split - parts concatenate back to the input, no part longer than the limit; Concatenator (single upstream: exact arrival order; fan-in: arrival order as recorded; GroupByTag) - output == every input's content plus newline once in arrival order; FileSource / ParamSource / FileToParamsReader (incl. last line without newline, empty lines) / CommandToParams - emitted == given / read, in order; FileGlobber - emitted == an independent matcher over a generated directory tree, per pattern in lexical order. distinct_nontrivial = distinct (component, shape) cases whose comparison was made on >= 1 emitted item or an empty expectation")
+	c.Rule("every bundled component is placed between sources and recorders / consuming tasks and compared with a reference function: FileCombinator and ParamCombinator with 1-4 ports and stream lengths 0..B+1 from independent upstreams (B in {1,3}) and 0..B from a shared upstream - the multiset of aligned tuples (i-th item of every out-port) must equal the Cartesian product, each once; IPSelectorSync with every predicate outcome pattern over up to 6 aligned tuples; FileSplitter over files of 0..12 lines (with and without trailing newline) x 1..5 lines per split - parts concatenate back to the input, no part longer than the limit; Concatenator (single upstream: exact arrival order; fan-in: arrival order as recorded; GroupByTag) - output == every input's content plus newline once in arrival order; FileSource / ParamSource / FileToParamsReader (incl. last line without newline, empty lines) / CommandToParams - emitted == given / read, in order; FileGlobber - emitted == an independent matcher over a generated directory tree, per pattern in lexical order; the recorders stat every item on reception: what a file-emitting component hands downstream must exist at that moment (FileSplitter parts included). distinct_nontrivial = distinct (component, shape) cases whose comparison was made on >= 1 emitted item or an empty expectation")
 	c.Assume("unequal closing of IPSelectorSync inputs is a documented failure and is not generated", "a trailing empty part after an exact multiple of the line limit is legal")
 	rng := c.Rand("c19")
 	var jobs []*c19Job
@@ -550,6 +561,9 @@ func c19(args []string) {
 			jobs = append(jobs, &c19Job{name: "FileSplitter", s: s, cfg: cfgOf(1 + per%3), label: fmt.Sprintf("%d input files, %d lines per split", nf, per),
 				oracle: func(res *run.Result, ti *mon.TraceIndex, exp *ref.Result) []mon.Problem {
 					got := recPaths(ti, "R")
+					if ps := partsExistWhenEmitted(ti, "R"); len(ps) > 0 {
+						return ps
+					}
 					if !eqList(got, w) {
 						return []mon.Problem{{Sig: "splitter-emission-order", Msg: fmt.Sprintf("parts emitted as %v, expected %v (file after file, part after part)", got, w)}}
 					}
@@ -587,6 +601,17 @@ func c19(args []string) {
 		}
 		ti := mon.Index(res.Trace)
 		ps := j.oracle(res, ti, nil)
+		// whatever a file-emitting component hands downstream exists at that moment (the recorders stat on reception)
+		switch j.name {
+		case "Concatenator", "FileSource", "FileGlobber", "FileGlobberDependent", "FileCombinator", "IPSelectorSync":
+			for rec, evs := range ti.Recs {
+				for _, e := range evs {
+					if !e.Exists && !strings.HasPrefix(e.Path, "/tmp/") {
+						ps = append(ps, mon.Problem{Sig: "component-emitted-item-before-it-exists", Msg: fmt.Sprintf("%s: %s passed recorder %s before a file existed at that path", j.name, e.Path, rec)})
+					}
+				}
+			}
+		}
 		for _, l := range run.Snap(res.Wd).Leftovers() {
 			ps = append(ps, mon.Problem{Sig: "component-leaves-tempdir", Msg: j.name + " run left " + l + " behind"})
 		}
